@@ -161,6 +161,21 @@ func init() {
 				}
 				return c
 			}
+			if r.Float64() < 0.06 {
+				// late-reader template: a handle opened while the file is empty (or short) is read
+				// only after another caller has rewritten the file: the read sees the file as it is
+				// at the time of the read, whatever the handle remembered from its open
+				d0 := []int{0, 0, 3}[r.IntN(3)]
+				c.Ops = []Op{{K: "mkdir", P: "/s", M: 0o755}, {K: "writefile", P: "/t", D: &Data{Len: d0, Kind: "text", Tag: 0x7780}}}
+				c.Progs = [][]Op{
+					{{K: "open", P: "/t", H: 1}, {K: "stat", P: "/s"}, {K: "h.read", H: 1, N: 1 << 16}, {K: "h.close", H: 1}},
+					{{K: "create", P: "/t", H: 101}, {K: "h.write", H: 101, D: &Data{Len: 1 + r.IntN(2000), Kind: "text", Tag: 0x7781}}, {K: "h.close", H: 101}},
+				}
+				if r.IntN(2) == 0 {
+					c.Progs = append(c.Progs, []Op{{K: "mkdir", P: "/w", M: 0o755}})
+				}
+				return c
+			}
 			if t := r.Float64(); t < 0.12 {
 				// readers template: several callers read existing files through their own
 				// handles at the same time (restore goroutines overlap), one caller writes
